@@ -46,7 +46,7 @@ def BOUND(tier):
         return {"trees": "plane trees <= 4 nodes (elec family: every distribution of 3 sets on <= 3 nodes, one set per node + dummy placements on 4 nodes); eph family on <= 3 nodes",
                 "depth": 2, "sectors": "all"}
     return {"trees": "plane trees <= 5 nodes (elec, 3 sets), <= 4 nodes (eph, two-component; 4 sets on 1, 2, 4 nodes), every distribution of the basis sets",
-            "depth": 2, "sectors": "all"}
+            "depth": "2 (trees <= 4 nodes; 5-node trees: observable battery in one sector)", "sectors": "all"}
 
 
 FAMS = {"elec3": ("elec", 3), "eph3": ("eph", 3), "elec4": ("elec", 4), "two3": ("two", 3)}
@@ -81,7 +81,10 @@ def cases(tier, seed):
                             if N == 2 and isec == 0:
                                 continue
                         base = {"fam": famname, "parent": parent, "groups": [list(g) for g in dist], "sector": sec}
-                        yield dict(base, mode="seq")
+                        if N == 5 and isec != 1:
+                            continue          # five-node trees: one sector, observable battery only (thorough budget)
+                        if N < 5:
+                            yield dict(base, mode="seq")
                         yield dict(base, mode="battery", full_battery=not quick)
     for fam in ("elec", "eph", "two"):
         for n in (2, 3, 4):
